@@ -16,5 +16,5 @@ PYTHONPATH="$wt" timeout 300 /venv/bin/python "$demo" >/dev/null 2>&1; echo "dem
 cd /verif
 for prop in "$@"; do
   out="$(VERIF_REPO="$wt" VERIF_REPLAY_DIR="$wt/.replays" VERIF_NO_DET=1 timeout 1500 bin/check "$prop" ${TIER:-quick} 2>&1)"; rc=$?
-  echo "check $prop ${TIER:-quick} exit=$rc :: $(echo "$out" | grep -E '^(violation|HARNESS)' | head -2 | cut -c1-400)"
+  echo "check $prop ${TIER:-quick} exit=$rc :: $(echo "$out" | grep -E "^(violation|HARNESS|[A-Za-z]*Error)" | head -4 | cut -c1-400)"
 done
